@@ -353,8 +353,11 @@ def check_cfg(ctx, fx, cfg):
             made.append((f.get("root", f["def"]), f["def"], st.get("l")))
     if cfg != "bare":
         ctx.floor("R08.7", "constructions of ServiceStillRunning (%s)" % cfg, len(made), 1)
+    # (a crate-private helper used by nothing but registry operations — `register_in(&self, table)`, handed the locked
+    # table — is part of them)
+    op_helpers = graph.private_helpers(fx, set(roots_))
     for root, fn_, loc in made:
-        ctx.require(root in roots_, "R08.7", "still-running-decided-under-lock:%s@%s" % (fn_, cfg), "ServiceStillRunning is reported outside the registry's critical section (an unlocked check-then-act: the answer can be stale, and a terminated entry is not replaced)", fn=fn_, site=loc)
+        ctx.require(root in roots_ or root in op_helpers, "R08.7", "still-running-decided-under-lock:%s@%s" % (fn_, cfg), "ServiceStillRunning is reported outside the registry's critical section (an unlocked check-then-act: the answer can be stale, and a terminated entry is not replaced)", fn=fn_, site=loc)
     REG = "addr::Addr::<A>::register"
     from props.c04 import check_forward_always
     n_fw = 0
@@ -785,7 +788,15 @@ def check_spawn_on_demand(ctx, fx, f, b, n, inst):
     cbi, ct = cl[0]
     # the actor is a fresh Default
     ar = roots(b, ct["args"][1])
-    ctx.require(all(r.kind == "call:core::default::Default::default" for r in ar), "R08.3", inst + ":fresh-default", "the on-demand instance must be a fresh Default value", fn=f["def"], site=ct["l"])
+
+    def _is_default(r):
+        if r.kind == "call:core::default::Default::default":
+            return True
+        # `create_loop(make())` with the maker handed down from the operation itself (`Self::from_registry_or_spawn_with(Self::default)`)
+        if r.kind.endswith(graph.CALLABLE_CALLS):
+            return all(graph.maker_is_default(fx, m_, roots, lambda g_: ctx.body(fx, g_)) for m_ in graph.supplied_maker(fx, b, getattr(b, "f", None) or f, r, roots, lambda g_: ctx.body(fx, g_)))
+        return False
+    ctx.require(bool(ar) and all(_is_default(r) for r in ar), "R08.3", inst + ":fresh-default", "the on-demand instance must be a fresh Default value", fn=f["def"], site=ct["l"])
     ins = [t for _, t in b.normal_calls() if is_mapop(t) and t["callee"].endswith("::insert")]
     ins_val = ins[0]["args"][2] if len(ins) == 1 else None
     if not ins:
